@@ -45,6 +45,54 @@ theorem decodeSliceLike_ne_panic (a b c : Nat) (max : Int) (src : List UInt8) :
 
 
 -- ---------------------------------------------------------------------------------------------
+-- the handshake frame limit
+-- ---------------------------------------------------------------------------------------------
+
+theorem hsLimit_eq (cfg : Cfg) : hsLimit cfg =
+    if cfg.maxMsgSize < 0 then -1 else if cfg.maxMsgSize < 8192 then 8192 else cfg.maxMsgSize := by
+  unfold hsLimit
+  have h0 : ¬ (Gen.HANDSHAKE_FRAME_LIMIT == 0) = true := by unfold Gen.HANDSHAKE_FRAME_LIMIT; decide
+  rw [if_neg h0]
+  simp only [Gen.HANDSHAKE_FRAME_LIMIT]
+  rfl
+
+theorem hsLimit_neg_iff (cfg : Cfg) : hsLimit cfg < 0 ↔ cfg.maxMsgSize < 0 := by
+  rw [hsLimit_eq]
+  by_cases h1 : cfg.maxMsgSize < 0
+  · rw [if_pos h1]; omega
+  · rw [if_neg h1]; by_cases h2 : cfg.maxMsgSize < 8192
+    · rw [if_pos h2]; omega
+    · rw [if_neg h2]
+
+theorem hsLimit_of_nat {cfg : Cfg} {m : Nat} (hm : cfg.maxMsgSize = (m : Int)) :
+    hsLimit cfg = ((max m Gen.HANDSHAKE_FRAME_LIMIT : Nat) : Int) := by
+  rw [hsLimit_eq, hm]
+  simp only [Gen.HANDSHAKE_FRAME_LIMIT]
+  rw [if_neg (by omega)]
+  by_cases h2 : (m : Int) < 8192
+  · rw [if_pos h2]; omega
+  · rw [if_neg h2]; omega
+
+theorem hsLimit_ge (cfg : Cfg) (h : ¬ cfg.maxMsgSize < 0) : cfg.maxMsgSize ≤ hsLimit cfg := by
+  rw [hsLimit_eq, if_neg h]
+  by_cases h2 : cfg.maxMsgSize < 8192
+  · rw [if_pos h2]; omega
+  · rw [if_neg h2]; omega
+
+theorem exceeds_hsLimit {cfg : Cfg} {raw : Nat} (h : exceeds (hsLimit cfg) raw = true) :
+    exceeds cfg.maxMsgSize raw = true := by
+  simp only [exceeds, Bool.and_eq_true, decide_eq_true_eq] at h ⊢
+  have h1 := hsLimit_neg_iff cfg
+  have h2 := hsLimit_ge cfg
+  omega
+/-- a frame admitted under MAXMSGSIZE is admitted under the handshake limit -/
+theorem admits_hsLimit {cfg : Cfg} {n : Nat} (h : cfg.maxMsgSize < 0 ∨ n ≤ cfg.maxMsgSize.toNat) :
+    hsLimit cfg < 0 ∨ n ≤ (hsLimit cfg).toNat := by
+  have h1 := hsLimit_neg_iff cfg
+  have h2 := hsLimit_ge cfg
+  omega
+
+-- ---------------------------------------------------------------------------------------------
 -- READY metadata
 -- ---------------------------------------------------------------------------------------------
 
@@ -306,12 +354,13 @@ theorem step_peerError {spec : AbsSpec} {cfg : Cfg} {t : Nat} {s s' : Eng} {o : 
 theorem step_none_bound {spec : AbsSpec} {cfg : Cfg} {t : Nat} {s : Eng} {m : Nat}
     (hm : cfg.maxMsgSize = (m : Int))
     (h : step spec cfg t s = none) (hp : s.panicked = false) (hc : s.phase ≠ .closed)
-    (hs : s.sealed = false) : s.acc.length < max 64 (9 + m) := by
+    (hs : s.sealed = false) :
+    s.acc.length < max 64 (9 + max m Gen.HANDSHAKE_FRAME_LIMIT) ∧ (s.phase = .data → s.acc.length < 9 + m) := by
   obtain ⟨phase, acc, version, revisionSent, v2IdentitySent, v2PeerType, mech, pendingSealed, sealed,
     lastActivity, lastPing, waitingForPong, partialBatch, panicked, gNegotiated, gTokens⟩ := s
   simp only at hp hs
   subst hp hs
-  cases phase <;> simp only [step, hm] at h <;> repeat' (split at h)
+  cases phase <;> simp only [step, hm, hsLimit_of_nat hm] at h <;> repeat' (split at h)
   all_goals first
     | (cases h; done)
     | skip
@@ -321,7 +370,7 @@ theorem step_none_bound {spec : AbsSpec} {cfg : Cfg} {t : Nat} {s : Eng} {m : Na
     simp only [Gen.GREETING_LENGTH, Gen.V2_GREETING_LENGTH, Gen.SIGNATURE_LENGTH,
       Gen.REVISION_OFFSET] at *
   all_goals first
-    | omega
+    | (refine ⟨?_, fun hph => ?_⟩ <;> first | omega | (cases hph; done))
     | contradiction
     | exact absurd (by assumption) (decodeBuffer_ne_panic _ _)
 
@@ -622,12 +671,14 @@ theorem quiescent_init' : Quiescent spec cfg Eng.init := by
   simp [step, Eng.init, Gen.SIGNATURE_LENGTH]
 
 /-- `C07.accumulator_bounded` with the hypothesis it needs (the one `engine_never_panics` has): without
-`hlim` the model engine can reach `panicked = true`, after which nothing is ever consumed. -/
+`hlim` the model engine can reach `panicked = true`, after which nothing is ever consumed.  Before the data
+phase an incomplete frame may be as large as the handshake limit `max m HANDSHAKE_FRAME_LIMIT`. -/
 theorem accumulator_bounded_of_frameLimit (hw : WellBehaved spec) (m : Nat)
     (hm : cfg.maxMsgSize = (m : Int)) (hlim : Gen.MAX_FRAMES_PER_MESSAGE ≤ cfg.frameLimit)
     (reads : List (Nat × Bytes)) :
     let s := (feedAll spec cfg Eng.init reads).1
-    s.phase ≠ .closed → s.sealed = false → s.acc.length < max 64 (9 + m) := by
+    s.phase ≠ .closed → s.sealed = false →
+      s.acc.length < max 64 (9 + max m Gen.HANDSHAKE_FRAME_LIMIT) ∧ (s.phase = .data → s.acc.length < 9 + m) := by
   intro s hc hs
   have hq : Quiescent spec cfg s := quiescent_feedAll hw reads _ quiescent_init'
   have hi : PanicInv s := feedAll_inv hlim reads _ PanicInv_init
@@ -651,17 +702,19 @@ theorem accCe_fact :
     s.phase = .data ∧ s.sealed = false ∧ s.acc.length = 64 := by
   decide
 
-/-- `C07.accumulator_bounded` is false as stated (no `frameLimit` hypothesis). -/
+/-- `C07.accumulator_bounded` is false without the `frameLimit` hypothesis. -/
 theorem accumulator_bounded_false :
     ¬ (∀ (spec : AbsSpec) (_ : WellBehaved spec) (cfg : Cfg) (m : Nat)
         (_ : cfg.maxMsgSize = (m : Int)) (reads : List (Nat × Bytes)),
         let s := (feedAll spec cfg Eng.init reads).1
-        s.phase ≠ .closed → s.sealed = false → s.acc.length < max 64 (9 + m)) := by
+        s.phase ≠ .closed → s.sealed = false →
+          s.acc.length < max 64 (9 + max m Gen.HANDSHAKE_FRAME_LIMIT)
+            ∧ (s.phase = .data → s.acc.length < 9 + m)) := by
   intro h
   have h1 := h AbsSpec.unavailable wb_unavailable accCeCfg 30 rfl [(0, accCeBytes)]
   obtain ⟨h2, h3, h4⟩ := accCe_fact
   simp only at h1 h2 h3 h4
-  have := h1 (by rw [h2]; decide) h3
+  have := (h1 (by rw [h2]; decide) h3).2 h2
   rw [h4] at this
   omega
 
